@@ -214,7 +214,7 @@ theorem tie_findEdges_shape : QueryOptsIR.findEdges_shape =
 theorem tie_findEdge_shape : QueryOptsIR.findEdge_shape =
     "single := *opts; single.MaxResults(1); e.findEdges(target, &single); if cond0 {return e.results[0]}; return newEdgeQueryResult(target)" := rfl
 theorem tie_findEdgesInternal_shape : QueryOptsIR.findEdgesInternal_shape =
-    "e.target = target; e.opts = opts; e.testedEdges = make(map[ShapeEdgeID]uint32); e.distanceLimit = target.distance().fromChordAngle(opts.distanceLimit); e.results = make([]EdgeQueryResult, 0); if ‹e.distanceLimit == target.distance().zero()› {return}; if cond0 {shapeIDs := map[int32]struct{}{}; e.target.visitContainingShapes(e.index, func{shapeIDs[e.index.idForShape(containingShape)] = struct{}{}; return val0}); range shapeID := shapeIDs {e.addResult(EdgeQueryResult{target.distance().zero(), shapeID, -1})}; if ‹e.distanceLimit == target.distance().zero()› {return}}; targetUsesMaxError := val1; e.useConservativeCellDistance = targetUsesMaxError && (e.distanceLimit == target.distance().infinity() || target.distance().zero().less(e.distanceLimit.sub(target.distance().fromChordAngle(opts.maxError)))); minOptimizedEdges := val2; if cond1 {e.indexNumEdges = e.index.NumEdgesUpTo(minOptimizedEdges); e.indexNumEdgesLimit = minOptimizedEdges}; if cond2 {e.avoidDuplicates = false; e.findEdgesBruteForce()} else {e.avoidDuplicates = val3; e.findEdgesOptimized()}" := rfl
+    "e.target = target; e.opts = opts; e.testedEdges = make(map[ShapeEdgeID]uint32); e.distanceLimit = target.distance().fromChordAngle(opts.distanceLimit); e.results = make([]EdgeQueryResult, 0); if ‹e.distanceLimit == target.distance().zero()› {return}; if cond0 {shapeIDs := map[int32]struct{}{}; e.target.visitContainingShapes(e.index, func{shapeIDs[e.index.idForShape(containingShape)] = struct{}{}; return val0}); range shapeID := shapeIDs {e.addResult(EdgeQueryResult{target.distance().zero(), shapeID, -1})}; if ‹e.distanceLimit == target.distance().zero()› {return}}; targetTakesMaxError := e.target.setMaxError(opts.maxError); targetUsesMaxError := val1; e.useConservativeCellDistance = targetUsesMaxError && (e.distanceLimit == target.distance().infinity() || target.distance().zero().less(e.distanceLimit.sub(target.distance().fromChordAngle(opts.maxError)))); minOptimizedEdges := val2; if cond1 {e.indexNumEdges = e.index.NumEdgesUpTo(minOptimizedEdges); e.indexNumEdgesLimit = minOptimizedEdges}; if cond2 {e.avoidDuplicates = false; e.findEdgesBruteForce()} else {e.avoidDuplicates = val3; e.findEdgesOptimized()}" := rfl
 theorem tie_ShapeIndex_Reset_shape : QueryOptsIR.ShapeIndex_Reset_shape =
     "s.shapes = make(map[int32]Shape); s.nextID = 0; s.cellMap = make(map[CellID]*ShapeIndexCell); s.cells = nil; s.pendingAdditionsPos = 0; s.pendingRemovals = nil; atomic.StoreInt32(&s.status, fresh)" := rfl
 theorem tie_ShapeIndex_Add_shape : QueryOptsIR.ShapeIndex_Add_shape =
